@@ -132,6 +132,27 @@ def buildOp (i : Inp) (freshUuid : Bytes) : Built :=
               else .op (.copyObject false sbk sk b k)
           | _ => .unmodelled "unknown-op"
 
+/-- the upload of the fixture whose record is in the new form (`h_fspath.rs::UB`): bound to bucket `bucket-a`, key `mp` -/
+def ubId : Bytes := sb "bbbbbbbb-1111-4222-8333-444444444444"
+
+/-- what the fixture's record of an upload binds it to (`none`: old form or no such upload) -/
+def fixtureBinding (u : Bytes) : Option (Bytes × Bytes) :=
+  if u = ubId then some (sb "bucket-a", sb "mp") else none
+
+/-- model side: what `check_upload_exists` finds in the fixture's record -/
+def fixtureRec (u : Bytes) : UploadRec :=
+  match fixtureBinding u with
+  | some (b, k) => .obj (some b) (some k)
+  | none => .old
+
+/-- spec side: an operation addressed to (bucket, key) owns the upload its id names unless the fixture binds that upload to
+    another bucket or key (byte-wise); then it may read the record and nothing else -/
+def uploadScope (b k : Bytes) (sc : FsPathSpec.Scope) : FsPathSpec.Scope :=
+  let foreign := fun (u : Bytes) => match fixtureBinding u with
+    | some (b', k') => !(b' == b && k' == k)
+    | none => false
+  { sc with uploads := sc.uploads.filter (!foreign ·), probeUploads := sc.uploads.filter foreign }
+
 /-- what the property lets the operation touch (spec side; built from the inputs as given) -/
 def scopeOf (o : Op) : FsPathSpec.Scope :=
   let cu := fun (u : Bytes) => (FsPathSpec.canonUuid u).toList
@@ -145,11 +166,11 @@ def scopeOf (o : Op) : FsPathSpec.Scope :=
   | .copyObject _ sbk sk b k => { readBuckets := [sbk], readObjects := [(sbk, sk)], writeBuckets := [b], writeObjects := [(b, k)] }
   | .putObject b k .. => { writeBuckets := [b], writeObjects := [(b, k)] }
   | .createMultipartUpload b k .. => { readBuckets := [b], writeObjects := [(b, k)] }
-  | .uploadPart _ _ u .. => { uploads := cu u }
-  | .uploadPartCopy _ sbk sk _ _ u .. => { readBuckets := [sbk], readObjects := [(sbk, sk)], uploads := cu u }
-  | .listParts _ _ u => { uploads := u :: cu u }
-  | .completeMultipartUpload b k u .. => { writeBuckets := [b], writeObjects := [(b, k)], uploads := cu u }
-  | .abortMultipartUpload b k u => { writeObjects := [(b, k)], uploads := cu u }
+  | .uploadPart b k u .. => uploadScope b k { uploads := cu u }
+  | .uploadPartCopy _ sbk sk b k u .. => uploadScope b k { readBuckets := [sbk], readObjects := [(sbk, sk)], uploads := cu u }
+  | .listParts b k u => uploadScope b k { uploads := u :: cu u }
+  | .completeMultipartUpload b k u .. => uploadScope b k { writeBuckets := [b], writeObjects := [(b, k)], uploads := cu u }
+  | .abortMultipartUpload b k u => uploadScope b k { writeObjects := [(b, k)], uploads := cu u }
 
 def parseLabel (s : String) : Option FsPathSpec.Label :=
   match s.splitOn "." with
@@ -205,6 +226,7 @@ def labelOfRel (labels : List (Bytes × FsPathSpec.Label)) (rel : Bytes) : FsPat
 def fixtureLabel (rel : Bytes) : FsPathSpec.Label :=
   let u1 := sb "11111111-2222-4333-8444-555555555555"
   let u2 := sb "aaaaaaaa-bbbb-4ccc-8ddd-eeeeeeeeeeee"
+  let ub := ubId
   let r := fun (n : Bytes) => sb "root/" ++ n
   let table : List (Bytes × FsPathSpec.Label) := [
     (r (metadataName encD (sb "bucket-a") (sb "obj") none), .object (sb "bucket-a") (sb "obj") none),
@@ -214,6 +236,8 @@ def fixtureLabel (rel : Bytes) : FsPathSpec.Label :=
     (r (metadataName encD (sb "bucket-b") (sb "secret") none), .object (sb "bucket-b") (sb "secret") none),
     (r (uploadInfoName u1), .upload u1), (r (uploadInfoName u2), .upload u2),
     (r (uploadPartName u1 1), .upload u1), (r (uploadPartName u1 2), .upload u1), (r (uploadPartName u2 1), .upload u2),
+    (r (uploadInfoName ub), .upload ub), (r (uploadPartName ub 1), .upload ub), (r (uploadPartName ub 2), .upload ub),
+    (r (metadataName encD (sb "bucket-a") (sb "mp") (some ub)), .object (sb "bucket-a") (sb "mp") (some ub)),
     (r (metadataName encD (sb "bucket-a") (sb "mp") (some u1)), .object (sb "bucket-a") (sb "mp") (some u1)),
     (r (metadataName encD (sb "bucket-b") (sb "mp") (some u2)), .object (sb "bucket-b") (sb "mp") (some u2))]
   match table.find? (·.1 = rel) with
@@ -222,7 +246,7 @@ def fixtureLabel (rel : Bytes) : FsPathSpec.Label :=
 
 /-- the nodes of the harness's layout (`h_fspath.rs::layout`) an object path can name, relative to the backend's root -/
 def layoutObjectNodes : List String :=
-  ["bucket-a/obj", "bucket-a/dir", "bucket-a/dir/inner", "bucket-a/empty",
+  ["bucket-a/obj", "bucket-a/dir", "bucket-a/dir/inner", "bucket-a/empty", "Bucket-A/obj",
    "bucket-b/obj", "bucket-b/secret", "bucket-b/dir", "bucket-b/dir/inner"]
 
 /-- `delete_object` of a key at whose path nothing exists succeeds without touching anything (20fee59) -/
@@ -297,7 +321,7 @@ def scansRootOf : Op → Bool
 
 def judgeCase (outerB cwd : Bytes) (id : String) (i : Inp) (code : String) (changes : List Chg)
     (revealed : List String) (freshUuid : Bytes) (sys : List SysAcc) : String :=
-  let envD : Env := { cwd := cwd, root := outerB ++ sb "/root" }
+  let envD : Env := { cwd := cwd, root := outerB ++ sb "/root", uploadRec := fixtureRec }
   let absOf := absOf outerB
   match buildOp i freshUuid with
   | .unmodelled why => unmodelled id why
